@@ -13,9 +13,11 @@ def parse(p):
             m = ROW.match(l.rstrip('\n'))
             if not m: raise SystemExit('unparsable line in %s: %r' % (p, l))
             yield (m.group(1), m.group(2), int(m.group(3)), float(m.group(4)) if m.group(4) else None, m.group(5).split())
+LANE32 = re.compile(r'^f[0-9a-f]{8}$'); LANE64 = re.compile(r'^d[0-9a-f]{16}$')
 def val(t):
-    if t[0] == 'f': return f32(int(t[1:], 16))
-    if t[0] == 'd': return f64(int(t[1:], 16))
+    """a float / double lane, or None for any other token (decision flags such as ff=10, integers): those must match exactly"""
+    if LANE32.match(t): return f32(int(t[1:], 16))
+    if LANE64.match(t): return f64(int(t[1:], 16))
     return None
 def main():
     import itertools
